@@ -24,8 +24,19 @@ def new_linear_scale(E, P, name, clamp):
     res = E.getattr(P, ctx, obj, "rescale")
     out = []
     for (p, _) in E.call(res[0][0], ctx, res[0][1], [], {}):
-        p.written = set()
-        out.append((p, obj, dict(a=a, b=b, r0=r0, r1=r1)))
+        # ... and then the public READ methods have been used (a scale that has already mapped and inverted values): a
+        # representation that caches on first use must still be re-established by every mutator
+        qs = [p]
+        for meth, arg in (("scale", "x0"), ("invert", "y0")):
+            nxt = []
+            for q in qs:
+                m = E.getattr(q, ctx, obj, meth)
+                for (q2, _v) in E.call(m[0][0], ctx, m[0][1], [E.sym("%s_%s" % (name, arg), "real")], {}):
+                    nxt.append(q2)
+            qs = nxt
+        for q in qs:
+            q.written = set()
+            out.append((q, obj, dict(a=a, b=b, r0=r0, r1=r1)))
     return out
 
 
@@ -53,17 +64,17 @@ CLAMPED = "({r0}) * (1 - max(0, min(1, (({x}) - ({a})) / (({b}) - ({a}))))) + ({
 
 def maps(obj, x, clamp, a, b, r0, r1):
     f = CLAMPED if clamp else AFF
-    return "%s._output(%s) == %s" % (obj, x, f.format(x=x, a=a, b=b, r0=r0, r1=r1))
+    return "%s.scale(%s) == %s" % (obj, x, f.format(x=x, a=a, b=b, r0=r0, r1=r1))
 
 
 def inv_scale(obj, clamp):
     """Inv-scale(obj): its mapping is the affine map through the end points of the domain and range it REPORTS now."""
     a, b, r0, r1 = ("%s._domain[0]" % obj, "%s._domain[1]" % obj, "%s._range[0]" % obj, "%s._range[1]" % obj)
     return [
-        ("inv.endpoint0", "implies({a} != {b}, {o}._output({a}) == {r0})".format(o=obj, a=a, b=b, r0=r0)),
-        ("inv.endpoint1", "implies({a} != {b}, {o}._output({b}) == {r1})".format(o=obj, a=a, b=b, r1=r1)),
+        ("inv.endpoint0", "implies({a} != {b}, {o}.scale({a}) == {r0})".format(o=obj, a=a, b=b, r0=r0)),
+        ("inv.endpoint1", "implies({a} != {b}, {o}.scale({b}) == {r1})".format(o=obj, a=a, b=b, r1=r1)),
         ("inv.affine", "forall(lambda x: implies({a} != {b}, {m}), 'real')".format(a=a, b=b, m=maps(obj, "x", clamp, a, b, r0, r1))),
-        ("inv.inverse", "forall(lambda y: implies({r0} != {r1}, {o}._input(y) == {f}), 'real')".format(
+        ("inv.inverse", "forall(lambda y: implies({r0} != {r1}, {o}.invert(y) == {f}), 'real')".format(
             o=obj, r0=r0, r1=r1, f=(CLAMPED if clamp else AFF).format(x="y", a=r0, b=r1, r0=a, r1=b))),
         ("inv.two_ends", "len(%s._domain) == 2 and len(%s._range) == 2" % (obj, obj)),
     ]
@@ -193,14 +204,14 @@ def _add_linear_scale_contracts():
         reg("scale", {"params": {"x": "real"}, "requires": ["sa != sb"],
                       "ensures": [("value", "result == " + (CLAMPED if clamp else AFF).format(x="x", a="sa", b="sb", r0="sr0", r1="sr1"))]})
         reg("invert", {"params": {"y": "real"}, "requires": ["sa != sb", "sr0 != sr1"],
-                       "ensures": ([("right_inverse", "self._output(result) == y")] if not clamp else
+                       "ensures": ([("right_inverse", "self.scale(result) == y")] if not clamp else
                                    [("within_domain", "min(sa, sb) <= result <= max(sa, sb)")])})
         if not clamp:
             C["scale.LinearScale.__call__@roundtrip"] = {
                 "props": ["C12"], "inline": True, "func_alias": "scale.LinearScale.__call__",
                 "setup": setup_scale(False, two=False), "params": {"x": "real"}, "requires": ["sa != sb", "sr0 != sr1"],
-                "ensures": [("left_inverse", "self._input(result) == x"),
-                            ("strictly_monotone", "forall(lambda z: implies(x < z, (self._output(z) - result) * (sb - sa) * (sr1 - sr0) > 0), 'real')")]}
+                "ensures": [("left_inverse", "self.invert(result) == x"),
+                            ("strictly_monotone", "forall(lambda z: implies(x < z, (self.scale(z) - result) * (sb - sa) * (sr1 - sr0) > 0), 'real')")]}
         # mutators: each must re-establish Inv-scale for the values it reports afterwards -----------------------------
         reg("rescale", {"params": {}, "ensures": inv_scale("self", clamp) + [("returns_self", "result is self")]})
         reg("domain", {"params": {"x": ["list", "real", "real"]},
@@ -219,7 +230,7 @@ def _add_linear_scale_contracts():
             "params": {"n0": "real", "n1": "real"},
             "replay": _REPLAY_SHARED % dict(cls="LinearScale", clamp="s.clamp(%s)" % clamp, dom='s.domain([m["s_a"], m["s_b"]])'),
             "ensures": inv_scale("self", clamp) + [("reports", "self._range[0] == n0 and self._range[1] == n1"),
-                                                   ("maps_to_new_ends", "implies(sa != sb, self._output(sa) == n0 and self._output(sb) == n1)"),
+                                                   ("maps_to_new_ends", "implies(sa != sb, self.scale(sa) == n0 and self.scale(sb) == n1)"),
                                                    ("domain_kept", "self._domain[0] == sa and self._domain[1] == sb")]}
         for newc in (False, True):
             C["scale.LinearScale.clamp@%s_to_%s" % (tag, "clamp" if newc else "noclamp")] = {
@@ -369,20 +380,20 @@ CONTRACTS["scale.TimeScale.__call__"] = {
     "params": {"x": "dt"}, "requires": ["sa != sb"],
     # "agrees with a linear scale applied to milliseconds since the epoch" and hence affine in elapsed time
     "ensures": [("linear_in_epoch_ms", "result == " + AFF.format(x=_MS, a="sa", b="sb", r0="sr0", r1="sr1")),
-                ("same_as_linear_scale", "result == self._linear._output(us(x) / 1000)")],
+                ("same_as_linear_scale", "result == self._linear.scale(us(x) / 1000)")],
 }
 CONTRACTS["scale.TimeScale.__call__@proportional"] = {
     "props": ["C15"], "inline": True, "setup": setup_time_scale, "func_alias": "scale.TimeScale.__call__",
     "params": {"x": "dt", "y": "dt", "z": "dt"}, "requires": ["sa != sb", "sr0 != sr1"],
     # equal durations map to equal lengths; later instants map strictly farther along the range
     "ensures": [("equal_durations_equal_lengths",
-                 "implies(us(y) - us(x) == us(z) - us(y), self._linear._output(us(y) / 1000) - result == self._linear._output(us(z) / 1000) - self._linear._output(us(y) / 1000))"),
-                ("strictly_monotone", "implies(us(x) < us(y), (self._linear._output(us(y) / 1000) - result) * (sb - sa) * (sr1 - sr0) > 0)")],
+                 "implies(us(y) - us(x) == us(z) - us(y), self._linear.scale(us(y) / 1000) - result == self._linear.scale(us(z) / 1000) - self._linear.scale(us(y) / 1000))"),
+                ("strictly_monotone", "implies(us(x) < us(y), (self._linear.scale(us(y) / 1000) - result) * (sb - sa) * (sr1 - sr0) > 0)")],
 }
 CONTRACTS["scale.TimeScale.invert"] = {
     "props": ["C15"], "inline": True, "setup": setup_time_scale,
     "params": {"x": "real"}, "requires": ["sa != sb", "sr0 != sr1"],
-    "ensures": [("nearest_microsecond_of_linear_inverse", "-1 <= 2 * (us(result) - self._linear._input(x) * 1000) <= 1")],
+    "ensures": [("nearest_microsecond_of_linear_inverse", "-1 <= 2 * (us(result) - self._linear.invert(x) * 1000) <= 1")],
 }
 CONTRACTS["scale.TimeScale.invert@roundtrip"] = {
     "props": ["C15"], "inline": True, "func_alias": "scale.TimeScale.invert",
@@ -393,13 +404,15 @@ CONTRACTS["scale.TimeScale.invert@roundtrip"] = {
 CONTRACTS["scale.TimeScale.domain@set"] = {
     "props": ["C15"], "inline": True, "setup": setup_time_scale, "func_alias": "scale.TimeScale.domain",
     "params": {"x": ["list", "dt", "dt"]},
-    "ensures": [("maps_domain_instants_to_range_ends", "implies(us(x[0]) != us(x[1]), self._linear._output(us(x[0]) / 1000) == sr0 and self._linear._output(us(x[1]) / 1000) == sr1)"),
+    "ensures": [("maps_domain_instants_to_range_ends", "implies(us(x[0]) != us(x[1]), self._linear.scale(us(x[0]) / 1000) == sr0 and self._linear.scale(us(x[1]) / 1000) == sr1)"),
+                # ... and the inverse map follows the new domain as well (also on a scale that has inverted values before)
+                ("inverts_range_ends_to_new_domain_instants", "implies(us(x[0]) != us(x[1]) and sr0 != sr1, self._linear.invert(sr0) == us(x[0]) / 1000 and self._linear.invert(sr1) == us(x[1]) / 1000)"),
                 ("returns_self", "result is self")],
 }
 CONTRACTS["scale.TimeScale.range@set"] = {
     "props": ["C15"], "inline": True, "setup": setup_time_scale, "func_alias": "scale.TimeScale.range",
     "params": {"x": ["list", "real", "real"]},
-    "ensures": [("maps_domain_instants_to_new_range_ends", "implies(sa != sb, self._linear._output(sa) == x[0] and self._linear._output(sb) == x[1])"),
+    "ensures": [("maps_domain_instants_to_new_range_ends", "implies(sa != sb, self._linear.scale(sa) == x[0] and self._linear.scale(sb) == x[1])"),
                 ("reports", "self._linear._range[0] == x[0] and self._linear._range[1] == x[1]"), ("returns_self", "result is self")],
 }
 CONTRACTS["scale.TimeScale.range@set_shared_list"] = {
@@ -410,7 +423,7 @@ CONTRACTS["scale.TimeScale.range@set_shared_list"] = {
                                     dom='s.domain([datetime.datetime(1970, 1, 1) + datetime.timedelta(milliseconds=m["s_a"]), '
                                         'datetime.datetime(1970, 1, 1) + datetime.timedelta(milliseconds=m["s_b"])])'),
     # the range list is shared with the caller (kept by reference): a call with the same, changed list still takes effect
-    "ensures": [("maps_domain_instants_to_new_range_ends", "implies(sa != sb, self._linear._output(sa) == n0 and self._linear._output(sb) == n1)"),
+    "ensures": [("maps_domain_instants_to_new_range_ends", "implies(sa != sb, self._linear.scale(sa) == n0 and self._linear.scale(sb) == n1)"),
                 ("returns_self", "result is self")],
 }
 CONTRACTS["scale.TimeScale.domain@get"] = {
